@@ -216,6 +216,8 @@ impl FundamentalGroup {
 
 
 pub fn fundamental_group<T: DSym>(ds: &T) -> FundamentalGroup {
+    #[cfg(rust_dsymbols_verif)]
+    crate::verif_hooks::probe("fundamental_group");
     let (edge_to_word, gen_to_edge) = find_generators(ds);
     let mut cones = BTreeSet::new();
     let mut relators = BTreeSet::new();
